@@ -4,6 +4,7 @@ the key; a behaviour-preserving rewrite (`a < b` as `!(a >= b)`, `b > a`, Partia
 branches) keeps both.  The reviewed instances live in rules/boundaries.json: one line of reason per entry and the
 property for which the boundary is a necessary condition.  A key that no longer exists is *not* a violation (the
 comparison may have been restructured); the census fails closed only when too few of its keys are found."""
+import collections
 import json
 import os
 
@@ -398,6 +399,17 @@ def write_sites(F, fn_name, owner, field):
     return out
 
 
+def write_values(F, fn_name, owner, field):
+    """constant values (ints / bools as 0,1; '?' when not constant) assigned to the field in fn_name and its closures"""
+    out = []
+    for f in _family(F, fn_name):
+        for bi, si, pl, rv, ln in f.stmts():
+            if core.write_target(f, pl) == (owner, field):
+                c = core.op_const(rv[1]) if rv[0] == 'use' else None
+                out.append(c[0] if c is not None and isinstance(c[0], int) else '?')
+    return [str(x) for x in out]
+
+
 def check_writes(ctx, rid, prop):
     """reviewed state updates: the function still assigns the field at (at least) the reviewed number of sites"""
     r = ctx.rule(rid, 'PAIR', 'write census: each reviewed bookkeeping update is still performed (a dropped assignment lowers the site count)')
@@ -414,6 +426,14 @@ def check_writes(ctx, rid, prop):
         owner, field = e['field'].rsplit('.', 1)
         sites = write_sites(F, e['fn'], owner, field)
         ok = len(sites) >= e['sites']
+        if ok and e.get('values') is not None:
+            vals = sorted(write_values(F, e['fn'], owner, field))
+            need = collections.Counter(e['values'])
+            have = collections.Counter(vals)
+            ok = not (need - have)
+            r.check(ok, 'write-value|%s|%s' % (e['fn'].replace('proto::streams::', ''), field), fam[0].file,
+                    '%s assigns %s the constants %s (reviewed: %s). %s' % (e['fn'].split('::')[-1], field, vals, e['values'], e['why']))
+            continue
         r.check(ok, 'write|%s|%s' % (e['fn'].replace('proto::streams::', ''), field), fam[0].file,
                 '%s assigns %s at %d site(s) (reviewed: %d). %s' % (e['fn'].split('::')[-1], field, len(sites), e['sites'], e['why']))
     r.stat('entries', len(tab))
